@@ -332,7 +332,9 @@ class Rewriter(ast.NodeTransformer):
         body = [s for s in body if s is not None]
         body.append(_stmt(_call('loop_preserved', _const(n), _locals_call())))
         hav = stored_names(node.body) + ([] if not is_for else stored_names([node.target]))
-        mentioned = [x for x in loaded_names(node.body) if x not in hav and x in self.local_names[-1]
+        if not is_for:
+            hav += [x for x in stored_names([node.test]) if x not in hav]      # walrus targets in the loop test
+        mentioned = [x for x in loaded_names(node.body + ([] if is_for else [node.test])) if x not in hav and x in self.local_names[-1]
                      and not x.startswith('__')]
         self.report['loops'][n] = {'kind': 'for' if is_for else 'while', 'line': node.lineno,
                                    'havoc': hav, 'havoc_if_mutable': mentioned}
